@@ -342,7 +342,7 @@ Definition ghost_ok_b (cp : cpage) : bool :=
 Definition page_ok_b (cs : cseg) (cp : cpage) : bool :=
   let pg := cp_page cp in
   let e := get (entries (fst (cs_st cs))) (cp_idx cp) in
-  page_inv_b pg && (bsize pg =? bsz e) && (bsize pg <? W64) &&
+  page_inv_b pg && (bsize pg =? bsz e) &&
   (reserved pg =? snd (page_area cs (cp_idx cp)) / bsize pg) &&
   ghost_ok_b cp.
 
